@@ -149,6 +149,8 @@ fn run_scenario(sc: &serde_json::Value) -> serde_json::Value {
             want_trace,
             trace_hash: util::FNV_OFFSET,
             trace_len: 0,
+            round_hash: util::FNV_OFFSET,
+            round_first: None,
             trace: vec![],
             fired: vec![],
             budget,
@@ -178,6 +180,8 @@ fn run_scenario(sc: &serde_json::Value) -> serde_json::Value {
             ctx.trace_on = trace_on;
             ctx.fired.clear();
             ctx.budget_exceeded = false;
+            ctx.round_hash = util::FNV_OFFSET;
+            ctx.round_first = None;
             ctx.in_reader = true;
         });
         let mut panic_msg: Option<String> = None;
@@ -218,6 +222,8 @@ fn run_scenario(sc: &serde_json::Value) -> serde_json::Value {
             serde_json::json!({
                 "events": events,
                 "steps": ctx.step,
+                "round_hash": format!("{:016x}", ctx.round_hash),
+                "first_step": ctx.round_first.clone(),
                 "fired": fired,
                 "panic": panic_msg,
                 "budget_exceeded": ctx.budget_exceeded,
